@@ -11,13 +11,13 @@ CLAIMED = {
          "simulated clock and network; timers armed by the code under test fire 1us..3ms late (tape-chosen), as real timers do; UDP: only the first association of a client is judged"),
  "C17": ("§6 C17", "Seeded simulation of the real throttle handler and golang.org/x/time/rate on the bubble clock with 1..16 concurrent connections sharing the total limiter; every read reaching a client socket is timestamped exactly and checked against burst + rate*T per connection and in total, first read not before latency, stream intact.",
          "bound is measured from the first read attempt of the connection (resp. of any connection for the total limiter); 0.05 byte slack for float rounding in x/time/rate"),
- "C13": ("§6 C13", "Seeded simulation of the real ListenerWrapper (accept loop, handler goroutines, connChan hand-off, shutdown draining) with mixes of terminal / fall-through / failing / TLS-terminated connections, slow consumers, connChan capacities 1..16, temporary accept errors and Close at arbitrary instants; oracle: exactly-once census, byte-exact replay through the poisoning pool, TLS connection state, closure of consumed/rejected connections, Accept reporting closure, no goroutine left, bounded liveness after Close.",
+ "C13": ("§6 C13", "Seeded simulation of the real ListenerWrapper (accept loop, handler goroutines, connChan hand-off, shutdown draining) with one or two listeners per wrapper, mixes of terminal / fall-through / failing / TLS-terminated / two-step connections, slow consumers that close once or twice, connChan capacities 1..16, temporary accept errors and Close at arbitrary instants; oracle: exactly-once census, byte-exact replay through the poisoning pool, TLS connection state, closure of consumed/rejected connections, delivery by the listener the connection arrived on, Accept reporting closure within 20 ms of Close, no goroutine left, bounded liveness after Close.",
          "connection classes are decided by the first stream byte through spec matchers plus the real tls matcher/handler; GOMAXPROCS is set per run to choose the connChan capacity"),
  "C09": ("§6 C09", "Seeded simulation of the real UDP server loop and packetConn (reader goroutine, udpConns table, readCh/closeCh/closed protocol, idle and deadline timers) with 1..14 client addresses, bursts beyond the channel capacities, handlers that stay away from their queue or leave without reading, drop/dup/reorder/delay before arrival, handlers that finish after k datagrams, idle expiry, temporary read errors and socket Close; inserted yield points and a tape-driven select make the close/arrival windows explorable and replayable. Oracle over arrival order at the socket; process survival and bounded liveness of the loop (no permanent stall while the socket is open) are part of the verdict.",
          "no order is demanded between two simultaneously alive associations of one client (a stale close notification can start a second one); datagrams queued in an association that ends are excusably lost; goroutine exit at shutdown is not part of the statement and not checked"),
  "C03": ("§6 C03", "Seeded simulation of the real proxy handler (dial, chained TeeReader pump, per-upstream copiers, CloseWrite propagation, deferred cleanup) behind optional matcher/consume/throttle/proxy_protocol/tls handlers against 1..3 scripted upstream peers, optionally over TLS (the proxy's tls option); a datagram variant puts the real UDP server loop in front of the proxy with simulated UDP upstreams (fresh associations redial); reference streams in both directions, EOF propagation in either order while the other direction still flows, handler return, upstream closure and goroutine census, bounded liveness; faults (resets, stalls, early full close) in a separate configuration with prefix-only oracles.",
          "TLS-terminated downstream is explored with a single peer (two relay goroutines writing one tls.Conn contend on a sync.Mutex that synctest cannot see); the TLS dial seam returns a wrapper that keeps crypto/tls's Write/CloseWrite/Close ordering with a simulator-visible lock"),
- "C10": ("§6 C10", "The shipped selection policies run inside the real proxy handler behind a recording wrapper, in a simulated world with outages, health checks, limits and bursts of concurrent connections; at every Select the result is checked against the set the shipped available() reports at that instant (membership, none iff empty, first, round-robin fairness per window, ip_hash determinism and stability under removals, least_conn minimum); that availability snapshot is itself checked against the stated rule evaluated on the raw per-peer counters; empty pools by direct invocation; panics are violations.",
+ "C10": ("§6 C10", "The shipped selection policies run inside the real proxy handler behind a recording wrapper, in a simulated world with outages, health checks, limits and bursts of concurrent connections; at every Select the result is checked against the set the shipped available() reports at that instant (membership, none iff empty, first, round-robin fairness per window, ip_hash determinism and stability under removals, least_conn minimum); selections during which only connection counts moved are still judged for membership unless availability may have flipped and flipped back during the call (decided from the dial log); connection counts are conserved; that availability snapshot is itself checked against the stated rule evaluated on the raw per-peer counters; empty pools by direct invocation; panics are violations.",
          "availability is taken from the implementation (its correctness is C11's subject); Select events during which availability changed concurrently are skipped; math/rand is seeded per run"),
  "C11": ("§6 C11", "Same world; the recorded history of dials, probes, selections, connection lifetimes and handler durations on the simulated clock is checked against a reference model of passive failure windows, active-check convergence, retry spacing/duration and connection limits; counters read through an accessor must never be negative and connection counts are conserved (never above the number of running handlers connected to the peer, zero when all have returned); a configuration reload mid-run (new handler on the same addresses, old one cancelled) is one of the drawn operations.",
          "instants exactly on a window edge are skipped; limits are checked for connections in their relay phase; outages are 'connection refused' (net.Dial has no timeout, a blackhole would mean the OS default)"),
@@ -29,7 +29,7 @@ CLAIMED = {
          "the quic matcher (spins a real quic-go listener with its own goroutines and timers) is not run inside the bubble; allocation is measured for matchers, handlers are checked for survival only; crash replays are by seed (the tape of a crashed run cannot be shrunk in-process)"),
  "C06": ("§6 C06", "Each input (generator-made valid message with trailing data, or a mutation) is delivered to the real router several times: whole, then under tape-chosen segmentations, optionally with a second deciding matcher set OR'ed into the route; a wrapper evaluates the shipped matcher twice per round and watches the client socket's read counter and the prefetch buffer. Oracle: no socket reads while matching, buffer untouched, repeatable verdict, a message that matches with the whole message buffered matches under every delivery, and a 'no' on a prefix is never followed by a 'yes' on a longer prefix of the same input.",
          "matchers that by design reject trailing bytes (dns/tcp, rdp, openvpn/tcp, winbox) get no trailing data; the quic matcher is excluded (see C04); inputs larger than MaxMatchingBytes are exempt from the whole-message reference"),
- "C08": ("§6 C08", "Two phases. (1) 2..64 simultaneous connections with distinct position-coded streams through one shared configuration (shared throttle limiter, tee, subroute, proxy with a drawn policy over shared upstreams, openvpn matcher, deterministic poisoning buffer pool): every handler, branch, upstream and echo must see exactly its own connection's stream and each connection must take the route its own bytes select. (2) The same and the other concurrent worlds (relay, listener wrapper, load balancing, UDP, rewind) in a -race build driven by the same seeded scheduler, whose park/release hand-offs are hidden from the detector (runtime.RaceDisable), so two accesses are reported exactly when the repository does not order them; reports with both accesses attributed to repository code are violations, replayable by seed.",
+ "C08": ("§6 C08", "Three phases. (1) 2..64 simultaneous connections with distinct position-coded streams through one shared configuration (shared throttle limiter, tee, subroute, proxy with a drawn policy over shared upstreams, openvpn matcher, deterministic poisoning buffer pool): every handler, branch, upstream and echo must see exactly its own connection's stream and each connection must take the route its own bytes select. (1b) The listener-wrapper world (hand-off of prefetched bytes to a wrapped listener, late readers, single and double close) judged for buffer integrity. (2) The same and the other concurrent worlds (relay, listener wrapper, load balancing, UDP, rewind) in a -race build driven by the same seeded scheduler, whose park/release hand-offs are hidden from the detector (runtime.RaceDisable), so two accesses are reported exactly when the repository does not order them; reports with both accesses attributed to repository code are violations, replayable by seed.",
          "the race detector reports each distinct race once per process; the simulator's own (scheduler-serialised, detector-invisible) accesses are reported too and filtered by attribution; the poisoning pool gives the detector sync.Pool's Put->Get edge; one processor count (the schedule does not depend on GOMAXPROCS)"),
 }
 NA = {
